@@ -112,7 +112,7 @@ Definition join (a b : cmp) : cmp :=
 
 Section Rec.
   Variable g : graph.
-  Variable rec : obj -> obj -> list Z -> cmp.   (* EqualObjects, one unit of fuel less *)
+  Variable rec : obj -> obj -> list Z -> cmp.   (* equalObjects at depth+1, one unit of fuel less *)
 
   (* equalArrays: in order, returns at the first element that is not (true,nil) *)
   Fixpoint equalArrayElems (a1 a2 : list obj) (pairs : list Z) : cmp :=
@@ -169,19 +169,34 @@ Section Rec.
     end.
 End Rec.
 
-(* EqualObjects(o1, o2, xRefTable, pairs) *)
-Fixpoint EqualObjects (fuel : nat) (g : graph) (o1 o2 : obj) (pairs : list Z) : cmp :=
+(* equalObjects(o1, o2, xRefTable, pairs, depth).  limit = xRefTable.MaxRecursionDepth()
+   (the configured limit, or the default when it is <= 0): CheckRecursionDepth fails when
+   depth > limit.  equalArrays and equalDicts compare their elements at depth+1;
+   equalStreamDicts -> equalDicts and the dispatch below keep depth. *)
+Fixpoint equalObjects (fuel : nat) (limit : Z) (g : graph) (o1 o2 : obj) (pairs : list Z)
+                      (depth : Z) : cmp :=
   match fuel with
   | O => CFuel
   | S f =>
+      if limit <? depth then CE                       (* ErrMaxRecursionDepthExceeded *)
+      else
+      let rec := fun x y p => equalObjects f limit g x y p (depth + 1) in
       match o1, o2 with
       | ORef n1 g1, ORef n2 g2 =>
           if (n1 =? n2) && (g1 =? g2) then CT
           else if containsPair pairs n1 n2 then CT
-          else compareDeref g (EqualObjects f g) o1 o2 (appendPair pairs n1 n2)
-      | _, _ => compareDeref g (EqualObjects f g) o1 o2 pairs
+          else compareDeref g rec o1 o2 (appendPair pairs n1 n2)
+      | _, _ => compareDeref g rec o1 o2 pairs
       end
   end.
+
+(* EqualObjects(o1, o2, xRefTable, pairs) = equalObjects(o1, o2, xRefTable, pairs, 0) *)
+Definition EqualObjects (fuel : nat) (limit : Z) (g : graph) (o1 o2 : obj) (pairs : list Z) : cmp :=
+  equalObjects fuel limit g o1 o2 pairs 0.
+
+(* fuel that always suffices: one unit per nesting level up to the limit, one for the call
+   that reports the excess *)
+Definition enoughFuel (limit : Z) : nat := Z.to_nat (limit + 1) + 1.
 
 (* ------------------------------------------------------------------ *)
 (* the observable meaning: what a reader that follows references sees  *)
@@ -245,11 +260,11 @@ Fixpoint simb (n : nat) (g1 : graph) (o1 : obj) (g2 : graph) (o2 : obj) : bool :
    used when Configuration.OptimizeDuplicateContentStreams is set: a cached stream sd1 with
    the same StreamLength as the new stream sd is a duplicate when
    model.EqualObjects(sd, sd1, xRefTable, nil) (both dereferenced) says (true, nil); an error is returned. *)
-Definition contentStreamDup (fuel : nat) (g : graph) (cached new : obj) : cmp :=
+Definition contentStreamDup (fuel : nat) (limit : Z) (g : graph) (cached new : obj) : cmp :=
   match cached, new with
   | OStream _ r1, OStream _ r2 =>
       if Nat.eqb (length (rawbytes r1)) (length (rawbytes r2))
-      then EqualObjects fuel g new cached [] else CF
+      then EqualObjects fuel limit g new cached [] else CF
   | _, _ => CF
   end.
 
